@@ -306,12 +306,25 @@ def case2(item):
             rec["sigs"].add((acta[0], actb[0], completed))
             if completed and not in_language_full(H, seq, tls13, victim,
                                                   sc.flavour == "cert"):
-                rec["fails"].append((
-                    {"dev": "%r@%d+%r@%d" % (acta, ia, actb, ib),
+                k = {"dev": "%r@%d+%r@%d" % (acta, ia, actb, ib),
                      "act": acta[0] + "+" + actb[0],
                      "what": [acta[1] if len(acta) > 1 else None,
-                              actb[1] if len(actb) > 1 else None]},
-                    "victim completed after receiving %r (honest: %r)" % (
+                              actb[1] if len(actb) > 1 else None]}
+                # the same execution as one of its components alone (the
+                # other one falls after completion): report it under that
+                # single deviation's key, as bound 1 does
+                for (i1, act1) in ((ia, acta), (ib, actb)):
+                    r1 = run_one(sc, seed, victim, {i1: act1})
+                    if r1 is None or r1[2][victim].status != "ok":
+                        continue
+                    if cut_at_completion(list(r1[1].sent), victim,
+                                         tls13) == seq:
+                        k = {"dev": k["dev"], "act": act1[0],
+                             "what": act1[1] if len(act1) > 1 else None,
+                             "tok": dict(honest).get(i1)}
+                        break
+                rec["fails"].append((
+                    k, "victim completed after receiving %r (honest: %r)" % (
                         seq, H)))
             elif not completed and v.status == "exc" and not isinstance(
                     v.exc, (E.TLSAlert, E.TLSAbruptCloseError, OSError)):
@@ -488,7 +501,7 @@ def run(res, tier, seed):
                 res.outcome(("pair",) + tuple(s))
             for (k, f) in rec["fails"]:
                 res.violation({"victim": rec["victim"], "act": k.get("act"),
-                               "what": k.get("what"),
+                               "what": k.get("what"), "tok": k.get("tok"),
                                "tls13": rec["scenario"].startswith(
                                    "TLS1.3")},
                               {"scenario": rec["scenario"], "dev": k,
